@@ -1,11 +1,392 @@
 import StorageModel.Driver.Common
+import StorageModel.Filter.Db
 /- model driver for C01: `run spec` reads case lines on stdin and prints one output line per case
-   (spec = false: the engine model's output; spec = true: the spec's verdict). -/
-namespace StorageModel.Driver.C01
-open StorageModel.Driver
+   (spec = false: the engine model's output; spec = true: the spec's verdict).
 
-def step (_line : String) : String := "not-implemented"
-def specStep (_line : String) : String := "not-implemented"
+   Case lines (tokens separated by one blank; byte strings hex, `-` = empty):
+
+     m <nsym> {<name> <type> <isSet 0|1> <seekable 0|1>}* <nrows> {<row>}* <nfmt> {<bits> <hex>}* <filter> @ <zitiql-hex>
+         row    = one <value> per scalar symbol / one <set> per set symbol, in symbol order
+         value  = N | B0 | B1 | i32:<dec> | i64:<dec> | F:<bits> | S:<hex> | T:<nanos>:<hex>
+         set    = L<k> <value>*k            (in cursor order)
+         filter = prefix notation, see `parseU`
+     b …  (bolt-backed store cases, see `Filter/Db.lean`)
+-/
+namespace StorageModel.Driver.C01
+open StorageModel StorageModel.Driver StorageModel.Filter
+
+abbrev P (α : Type) := List String → Option (α × List String)
+
+def tok : P String
+  | [] => none
+  | t :: r => some (t, r)
+
+def pNat : P Nat := fun ts => do
+  let (t, r) ← tok ts
+  let n ← t.toNat?
+  pure (n, r)
+
+def pInt? (s : String) : Option Int := s.toInt?
+
+def pOptInt : P (Option Int) := fun ts => do
+  let (t, r) ← tok ts
+  if t = "-" then pure (none, r) else do
+    let i ← pInt? t
+    pure (some i, r)
+
+def pBytes : P Bytes := fun ts => do
+  let (t, r) ← tok ts
+  let b ← Bytes.ofHex t
+  pure (b, r)
+
+def rep {α} (p : P α) : Nat → P (List α)
+  | 0, ts => some ([], ts)
+  | k + 1, ts => do
+    let (a, r) ← p ts
+    let (as, r') ← rep p k r
+    pure (a :: as, r')
+
+def ofBits (s : String) : Option Float := do
+  let n ← s.toNat?
+  pure (Float.ofBits (UInt64.ofNat n))
+
+def afterColon (t : String) : List String := t.splitOn ":"
+
+def pVal : P (SVal Float) := fun ts => do
+  let (t, r) ← tok ts
+  match afterColon t with
+  | ["N"] => pure (.nil, r)
+  | ["B0"] => pure (.bool false, r)
+  | ["B1"] => pure (.bool true, r)
+  | ["i32", d] => do let i ← pInt? d; pure (.int32 i, r)
+  | ["i64", d] => do let i ← pInt? d; pure (.int64 i, r)
+  | ["F", d] => do let f ← ofBits d; pure (.float f, r)
+  | ["S", h] => do let b ← Bytes.ofHex h; pure (.str b, r)
+  | ["T", d, h] => do let i ← pInt? d; let b ← Bytes.ofHex h; pure (.time i b, r)
+  | _ => none
+
+def pSet : P (List (SVal Float)) := fun ts => do
+  let (t, r) ← tok ts
+  if t.startsWith "L" then do
+    let k ← (t.drop 1).toString.toNat?
+    rep pVal k r
+  else none
+
+def pType (s : String) : Option NodeType :=
+  match s with
+  | "b" => some .bool | "t" => some .time | "f" => some .float | "i" => some .int
+  | "s" => some .str | "a" => some .any | "o" => some .other
+  | _ => none
+
+def pOp (s : String) : Option Op :=
+  match s with
+  | "eq" => some .eq | "ne" => some .ne | "lt" => some .lt | "le" => some .le | "gt" => some .gt
+  | "ge" => some .ge | "contains" => some .contains | "ncontains" => some .ncontains
+  | "icontains" => some .icontains | "nicontains" => some .nicontains
+  | _ => none
+
+def pFn (s : String) : Option SetFn :=
+  match s with
+  | "allOf" => some .allOf | "anyOf" => some .anyOf | "count" => some .count | "isEmpty" => some .isEmpty
+  | _ => none
+
+def pLit : P (Lit Float) := fun ts => do
+  let (t, r) ← tok ts
+  match afterColon t with
+  | ["null"] => pure (.null, r)
+  | ["s", h] => do let b ← Bytes.ofHex h; pure (.str b, r)
+  | ["i", d] => do let i ← pInt? d; pure (.int i, r)
+  | ["f", d] => do let f ← ofBits d; pure (.float f, r)
+  | ["t", d] => do let i ← pInt? d; pure (.time i, r)
+  | ["b", "0"] => pure (.bool false, r)
+  | ["b", "1"] => pure (.bool true, r)
+  | _ => none
+
+def pNum : P (Num Float) := fun ts => do
+  let (t, r) ← tok ts
+  match afterColon t with
+  | ["i", d] => do let i ← pInt? d; pure (.int i, r)
+  | ["f", d] => do let f ← ofBits d; pure (.float f, r)
+  | _ => none
+
+def pTimeTok : P Int := fun ts => do
+  let (t, r) ← tok ts
+  let i ← pInt? t
+  pure (i, r)
+
+def pArr : P (Arr Float) := fun ts => do
+  let (t, r) ← tok ts
+  let (k, r) ← pNat r
+  match t with
+  | "as" => do let (l, r) ← rep pBytes k r; pure (.strs l, r)
+  | "an" => do let (l, r) ← rep pNum k r; pure (.nums l, r)
+  | "at" => do let (l, r) ← rep pTimeTok k r; pure (.times l, r)
+  | _ => none
+
+/-- prefix notation of the untyped tree:
+      sym n | fn f n | sub f n skip limit q | bc 0/1 | cmp op l lit | in l arr | bet l lo hi
+      | notE e | unot e | and l r | or l r -/
+partial def parseU : P (U Float) := fun ts => do
+  let (t, r) ← tok ts
+  match t with
+  | "sym" => do let (n, r) ← tok r; pure (.sym n, r)
+  | "fn" => do
+    let (f, r) ← tok r; let fn ← pFn f
+    let (n, r) ← tok r
+    pure (.setFn fn n, r)
+  | "sub" => do
+    let (f, r) ← tok r; let fn ← pFn f
+    let (n, r) ← tok r
+    let (sk, r) ← pOptInt r
+    let (li, r) ← pOptInt r
+    let (q, r) ← parseU r
+    pure (.setFnSub fn n q sk li, r)
+  | "bc" => do let (b, r) ← tok r; pure (.boolC (b == "1"), r)
+  | "cmp" => do
+    let (o, r) ← tok r; let op ← pOp o
+    let (l, r) ← parseU r
+    let (lit, r) ← pLit r
+    pure (.cmp op l lit, r)
+  | "in" => do
+    let (l, r) ← parseU r
+    let (a, r) ← pArr r
+    pure (.inArr l a, r)
+  | "bet" => do
+    let (l, r) ← parseU r
+    let (lo, r) ← pLit r
+    let (hi, r) ← pLit r
+    pure (.between l lo hi, r)
+  | "notE" => do let (e, r) ← parseU r; pure (.notE e, r)
+  | "unot" => do let (e, r) ← parseU r; pure (.unot e, r)
+  | "and" => do let (a, r) ← parseU r; let (b, r) ← parseU r; pure (.logic false a b, r)
+  | "or" => do let (a, r) ← parseU r; let (b, r) ← parseU r; pure (.logic true a b, r)
+  | _ => none
+
+def pFmt : P (UInt64 × Bytes) := fun ts => do
+  let (t, r) ← tok ts
+  let n ← t.toNat?
+  let (b, r) ← pBytes r
+  pure ((UInt64.ofNat n, b), r)
+
+/-- IEEE float64 operations; `fmt` (Go's `FormatFloat(x,'f',-1,64)`) is data supplied by the harness -/
+def floatOps (tbl : List (UInt64 × Bytes)) : FloatOps Float where
+  eq a b := a == b
+  lt a b := decide (a < b)
+  le a b := decide (a ≤ b)
+  ofInt := Float.ofInt
+  fmt f :=
+    -- NaN payloads are not preserved by `Float.toBits`: every NaN formats as "NaN" anyway
+    if f.isNaN then ((tbl.find? fun e => (Float.ofBits e.1).isNaN).map (·.2)).getD (Bytes.ofString "NaN")
+    else (tbl.lookup f.toBits).getD (Bytes.ofString "?")
+
+/-- executable form of the hypothesis `subRowsNonNil` of the refinement theorem, over the row
+    contexts a case provides (`rows t` = the contexts of entity type `t`) -/
+def subRowsNonNilB {T C : Type} (sg : Sigma T) (w : World C Float) (rows : T → List C) : T → U Float → Bool
+  | t, .setFnSub _ n q _ _ =>
+    ((rows t).all fun c => (w.subRows c n).all fun c' => !w.nilRow c') &&
+      (match sg.setTypes t n with
+       | some t' => subRowsNonNilB sg w rows t' q
+       | none => true)
+  | t, .cmp _ l _ => subRowsNonNilB sg w rows t l
+  | t, .inArr l _ => subRowsNonNilB sg w rows t l
+  | t, .between l _ _ => subRowsNonNilB sg w rows t l
+  | t, .notE e => subRowsNonNilB sg w rows t e
+  | t, .unot e => subRowsNonNilB sg w rows t e
+  | t, .logic _ l r => subRowsNonNilB sg w rows t l && subRowsNonNilB sg w rows t r
+  | _, _ => true
+
+/-! ### `m` cases: an in-memory ast.Symbols -/
+
+structure MSym where
+  name : String
+  ty : NodeType
+  isSet : Bool
+  seekable : Bool
+
+structure MRow where
+  scalars : List (String × SVal Float)
+  sets : List (String × List (SVal Float))
+
+def pMSym : P MSym := fun ts => do
+  let (n, r) ← tok ts
+  let (t, r) ← tok r; let ty ← pType t
+  let (s, r) ← tok r
+  let (k, r) ← tok r
+  pure ({ name := n, ty := ty, isSet := s == "1", seekable := k == "1" }, r)
+
+def pMRow (syms : List MSym) : P MRow := fun ts =>
+  let rec go : List MSym → MRow → P MRow
+    | [], acc, ts => some (acc, ts)
+    | s :: rest, acc, ts =>
+      if s.isSet then
+        match pSet ts with
+        | some (l, r) => go rest { acc with sets := acc.sets ++ [(s.name, l)] } r
+        | none => none
+      else
+        match pVal ts with
+        | some (v, r) => go rest { acc with scalars := acc.scalars ++ [(s.name, v)] } r
+        | none => none
+  go syms { scalars := [], sets := [] } ts
+
+def mSigma (syms : List MSym) : Sigma Unit where
+  sym _ n := (syms.find? (·.name == n)).map fun s => (s.ty, s.isSet)
+  setTypes _ _ := none
+
+def mWorld (syms : List MSym) (useSeek : Bool) : World MRow Float where
+  val c n := (c.scalars.lookup n).getD .nil
+  elems c n := (c.sets.lookup n).getD []
+  seekable _ n := useSeek && ((syms.find? (·.name == n)).map (·.seekable)).getD false
+  subRows _ _ := []
+  nilRow _ := false
+
+structure MCase where
+  syms : List MSym
+  rows : List MRow
+  fo : FloatOps Float
+  f : U Float
+
+def pMCase : P MCase := fun ts => do
+  let (k, r) ← pNat ts
+  let (syms, r) ← rep pMSym k r
+  let (nr, r) ← pNat r
+  let (rows, r) ← rep (pMRow syms) nr r
+  let (nf, r) ← pNat r
+  let (tbl, r) ← rep pFmt nf r
+  let (f, r) ← parseU r
+  pure ({ syms := syms, rows := rows, fo := floatOps tbl, f := f }, r)
+
+def mStep (c : MCase) : String :=
+  match typeCheck (mSigma c.syms) c.fo () c.f with
+  | .err => "err"
+  | .panic => "panic"
+  | .ok p =>
+    let w1 := mWorld c.syms true
+    let w0 := mWorld c.syms false
+    "ok " ++ p.shape ++ " " ++ bits (c.rows.map fun r => evalRow w1 c.fo r p) ++ " " ++
+      bits (c.rows.map fun r => evalRow w0 c.fo r p)
+
+def mSpec (c : MCase) : String :=
+  let sg := mSigma c.syms
+  if wellTyped sg c.fo () c.f then
+    "wt " ++ bits (c.rows.map fun r => sat sg (mWorld c.syms false) c.fo () r c.f)
+  else "ill"
+
+/-! ### `b` cases: bbolt-backed stores
+
+     b <nstores> {<store>}* <root store> <nfmt> {<bits> <hex>}* <filter> @ <zitiql-hex>
+       store = <nsyms> {<name> id|field|set <type> <linked store|->}* <nmaps> {<name> <type>}* <nrows> {<row>}*
+       row   = <id-hex> <nfields> {<key> <value>}* <nsets> {<key> <set>}* <nmaps> {<mapkey> <n> {<key> <value>}*}* -/
+
+def pSymDef : P (String × SymDef) := fun ts => do
+  let (n, r) ← tok ts
+  let (k, r) ← tok r
+  let (t, r) ← tok r; let ty ← pType t
+  let (l, r) ← tok r
+  let linked : Option Nat := if l = "-" then none else l.toNat?
+  match k with
+  | "id" => pure ((n, .id), r)
+  | "field" => pure ((n, .field ty linked), r)
+  | "set" => pure ((n, .set ty linked), r)
+  | _ => none
+
+def pMapDef : P (String × NodeType) := fun ts => do
+  let (n, r) ← tok ts
+  let (t, r) ← tok r; let ty ← pType t
+  pure ((n, ty), r)
+
+def pKV : P (String × SVal Float) := fun ts => do
+  let (k, r) ← tok ts
+  let (v, r) ← pVal r
+  pure ((k, v), r)
+
+def pKSet : P (String × List (SVal Float)) := fun ts => do
+  let (k, r) ← tok ts
+  let (v, r) ← pSet r
+  pure ((k, v), r)
+
+def pKMap : P (String × List (String × SVal Float)) := fun ts => do
+  let (k, r) ← tok ts
+  let (n, r) ← pNat r
+  let (m, r) ← rep pKV n r
+  pure ((k, m), r)
+
+def pEntity : P (Entity Float) := fun ts => do
+  let (id, r) ← pBytes ts
+  let (nf, r) ← pNat r
+  let (fields, r) ← rep pKV nf r
+  let (ns, r) ← pNat r
+  let (sets, r) ← rep pKSet ns r
+  let (nm, r) ← pNat r
+  let (maps, r) ← rep pKMap nm r
+  pure ({ id := id, fields := fields, sets := sets, maps := maps }, r)
+
+def pStore : P (StoreDef × List (Entity Float)) := fun ts => do
+  let (k, r) ← pNat ts
+  let (syms, r) ← rep pSymDef k r
+  let (nm, r) ← pNat r
+  let (maps, r) ← rep pMapDef nm r
+  let (nr, r) ← pNat r
+  let (rows, r) ← rep pEntity nr r
+  pure (({ syms := syms, maps := maps }, rows), r)
+
+structure BCase where
+  db : Db Float
+  root : Nat
+  fo : FloatOps Float
+  f : U Float
+
+def pBCase : P BCase := fun ts => do
+  let (k, r) ← pNat ts
+  let (stores, r) ← rep pStore k r
+  let (root, r) ← pNat r
+  let (nf, r) ← pNat r
+  let (tbl, r) ← rep pFmt nf r
+  let (f, r) ← parseU r
+  pure ({ db := { defs := stores.map (·.1), rows := stores.map (·.2) }, root := root, fo := floatOps tbl, f := f }, r)
+
+def idsText (ids : List Bytes) : String :=
+  if ids.isEmpty then "-" else ",".intercalate (ids.map Bytes.toWire)
+
+def bStepModel (c : BCase) : String :=
+  match query c.db c.fo c.root c.f with
+  | .err => "err"
+  | .panic => "panic"
+  | .ok ids =>
+    match typeCheck (dbSigma c.db.defs) c.fo c.root c.f with
+    | .ok p => "ok " ++ p.shape ++ " " ++ idsText ids ++ " " ++ idsText ids
+    | _ => "err"
+
+def bStepSpec (c : BCase) : String :=
+  let sg := dbSigma c.db.defs
+  if wellTyped (dbSpecSigma c.db.defs) c.fo c.root c.f then
+    "wt " ++ idsText (specQuery c.db c.fo c.root c.f) ++ " n=" ++ toString (storeIds c.db c.root).length ++
+      (if subRowsNonNilB sg (modelWorld c.db) (fun t => (storeIds c.db t).map fun id => (t, some id)) c.root c.f
+       then "" else " H:nilrow") ++
+      (if subQueriesPlain c.db.defs c.root c.f then "" else " H:subtail")
+  else "ill n=" ++ toString (storeIds c.db c.root).length
+
+def bStep (spec : Bool) (ts : List String) : String :=
+  match pBCase ts with
+  | some (c, _) => if spec then bStepSpec c else bStepModel c
+  | none => "bad-case"
+
+def step (line : String) : String :=
+  match splitSp line with
+  | "m" :: rest =>
+    (match pMCase rest with
+     | some (c, _) => mStep c
+     | none => "bad-case")
+  | "b" :: rest => bStep false rest
+  | _ => "bad-case"
+
+def specStep (line : String) : String :=
+  match splitSp line with
+  | "m" :: rest =>
+    (match pMCase rest with
+     | some (c, _) => mSpec c
+     | none => "bad-case")
+  | "b" :: rest => bStep true rest
+  | _ => "bad-case"
 
 def run (spec : Bool) : IO Unit := forEachLine (if spec then specStep else step)
 
